@@ -91,7 +91,12 @@ StateDiffs(e, o) ==
 
 \* kinds of actions the hub specification predicts
 Modelled(a) == a.k \in {"Begin", "End", "Send", "BulkSend", "Cancel", "ReqBatch", "Claim", "Confirm", "SetKeys", "Tx"}
-               \/ (a.k = "Gov" /\ a.p = "ColdStorage")
+               \/ (a.k = "Gov" /\ a.p \in {"ColdStorage", "TokenInfos"})
+\* a passed TokenInfosChangeProposal replaces the token list: from this line on the configuration carries the new one
+NewTokens(line) == [i \in DOMAIN line.res.aux.tokens |-> TokOf(line.res.aux.tokens[i])]
+TokensChanged(line) == line.act.k = "Gov" /\ line.act.p = "TokenInfos" /\ line.res.out = "ok" /\ "aux" \in DOMAIN line.res
+ActOf(line) == IF TokensChanged(line) THEN [k |-> "Gov", p |-> "TokenInfos", i |-> line.act.i, toks |-> NewTokens(line)] ELSE line.act
+CfgAfter(cfg, line) == IF TokensChanged(line) THEN [cfg EXCEPT !.tokens = NewTokens(line)] ELSE cfg
 
 \* the pre-state handed to Step: for "End" the staking module's validator update has already happened
 PreFor(a, pre, post) == IF a.k = "End" THEN [pre EXCEPT !.stk = post.stk, !.tot = post.tot] ELSE pre
@@ -333,7 +338,8 @@ ConsumeStep ==
        THEN /\ fails' = C05Checks(line.act, line.res)
             /\ hist' = [hist EXCEPT !.viol = @ \cup {<<hist.id, line.i, f[1], f[2]>> : f \in fails'},
                                     !.cov = Bump(@, CovKey(line.act, line.res))]
-       ELSE LET post == StateOf(line.post, hist.cfg)
+       ELSE LET post == StateOf(line.post, CfgAfter(hist.cfg, line))
+                act  == ActOf(line)
                 gc2  == GcNext(hist.gc, hist.pre, line.act, line.res)
                 xw0  == IF ExtAct(line.act) /\ WithWorld(hist.fam) THEN XwApply(hist.xw, line.act) ELSE hist.xw
                 \* evm family: custody and executed batches are what the real contract reports
@@ -351,9 +357,9 @@ ConsumeStep ==
                                          ![MC].done = {<<e.tok, e.bn>> : e \in {e \in RangeOf(post.mnt.ref) : e.t = "Exec"}}]
                         ELSE xw1
                 xw2  == IF WithWorld(hist.fam) THEN XwObserve(xw1m, post) ELSE xw1m
-            IN /\ fails' = ConfChecks(hist.pre, line.act, line.res, post) \cup PropChecks(hist.g, xw2, hist.fam, hist.pre, line.act, line.res, post)
+            IN /\ fails' = ConfChecks(hist.pre, act, line.res, post) \cup PropChecks(hist.g, xw2, hist.fam, hist.pre, act, line.res, post)
                             \cup C16Queries(gc2, post) \cup MinterChecks(hist.call, hist.pre, line.act, line.res)
-               /\ hist' = [hist EXCEPT !.pre = post, !.xw = xw2, !.gc = gc2,
+               /\ hist' = [hist EXCEPT !.pre = post, !.xw = xw2, !.gc = gc2, !.cfg = CfgAfter(hist.cfg, line),
                                        !.call = IF line.act.k = "ConnCall" THEN post ELSE @,
                                        !.g = IF Modelled(line.act) THEN GhostNext(hist.g, hist.pre, line.act, line.res, post) ELSE hist.g,
                                        !.viol = @ \cup {<<hist.id, line.i, f[1], f[2]>> : f \in fails'},
